@@ -10,29 +10,44 @@ type Iterator interface {
 	Next() interface{}
 }
 
+// ranger yields pos, pos+1, ..., end. pos is the next number to yield;
+// done is set once end has been yielded, so that pos never has to step
+// past end (end may be the largest int).
 type ranger struct {
-	pos int
-	end int
+	pos  int
+	end  int
+	done bool
 }
 
 func (r *ranger) Next() interface{} {
-	if r.pos < r.end {
-		r.pos++
-		return r.pos
+	if r.done || r.pos > r.end {
+		return nil
 	}
-	return nil
+	v := r.pos
+	if r.pos == r.end {
+		r.done = true
+	} else {
+		r.pos++
+	}
+	return v
 }
 
 func rangeHelper(a, b int) Iterator {
-	return &ranger{pos: a - 1, end: b}
+	return &ranger{pos: a, end: b}
 }
 
 func betweenHelper(a, b int) Iterator {
-	return &ranger{pos: a, end: b - 1}
+	if a >= b {
+		return &ranger{done: true}
+	}
+	return &ranger{pos: a + 1, end: b - 1}
 }
 
 func untilHelper(a int) Iterator {
-	return &ranger{pos: -1, end: a - 1}
+	if a <= 0 {
+		return &ranger{done: true}
+	}
+	return &ranger{pos: 0, end: a - 1}
 }
 
 func GroupByHelper(size int, underlying interface{}) (*groupBy, error) {
